@@ -946,7 +946,7 @@ write_mtree_entry(struct archive_write *a, struct mtree_entry *me)
 {
 	struct mtree_writer *mtree = a->format_data;
 	struct archive_string *str;
-	int keys, ret;
+	int keys, ret, unset_names;
 
 	if (me->dir_info) {
 		if (mtree->classic) {
@@ -973,6 +973,27 @@ write_mtree_entry(struct archive_write *a, struct mtree_entry *me)
 		}
 		if (mtree->output_global_set)
 			write_global(mtree);
+	}
+	/*
+	 * An entry without a user or group name must not pick up the name
+	 * of the current /set: take the name out for this entry.
+	 */
+	unset_names = 0;
+	if ((mtree->set.keys & F_UNAME) != 0 &&
+	    archive_strlen(&mtree->set.uname) > 0 &&
+	    archive_strlen(&me->uname) == 0)
+		unset_names |= F_UNAME;
+	if ((mtree->set.keys & F_GNAME) != 0 &&
+	    archive_strlen(&mtree->set.gname) > 0 &&
+	    archive_strlen(&me->gname) == 0)
+		unset_names |= F_GNAME;
+	if (unset_names != 0) {
+		archive_strcat(&mtree->buf, "/unset");
+		if ((unset_names & F_UNAME) != 0)
+			archive_strcat(&mtree->buf, " uname");
+		if ((unset_names & F_GNAME) != 0)
+			archive_strcat(&mtree->buf, " gname");
+		archive_strappend_char(&mtree->buf, '\n');
 	}
 	archive_string_empty(&mtree->ebuf);
 	str = (mtree->indent || mtree->classic)? &mtree->ebuf : &mtree->buf;
@@ -1086,6 +1107,18 @@ write_mtree_entry(struct archive_write *a, struct mtree_entry *me)
 	archive_strappend_char(str, '\n');
 	if (mtree->indent || mtree->classic)
 		mtree_indent(mtree);
+	if (unset_names != 0) {
+		archive_strcat(&mtree->buf, "/set");
+		if ((unset_names & F_UNAME) != 0) {
+			archive_strcat(&mtree->buf, " uname=");
+			mtree_quote(&mtree->buf, mtree->set.uname.s);
+		}
+		if ((unset_names & F_GNAME) != 0) {
+			archive_strcat(&mtree->buf, " gname=");
+			mtree_quote(&mtree->buf, mtree->set.gname.s);
+		}
+		archive_strappend_char(&mtree->buf, '\n');
+	}
 
 	if (mtree->buf.length > 32768) {
 		ret = __archive_write_output(
